@@ -223,6 +223,10 @@ func genC12(t *rapid.T) C12Case {
 		if broken {
 			s, _ = mutate(t, s)
 		}
+		if coin(t, "byte-order-mark", 8) {
+			// a file saved with a UTF-8 byte order mark: whatever crd makes of it, it makes the same of it on every path
+			s = "\ufeff" + s
+		}
 		return s
 	}
 	doc := func() string {
@@ -233,6 +237,9 @@ func genC12(t *rapid.T) C12Case {
 		y := d.YAML()
 		if broken {
 			y = strings.Replace(y, "values: [", "values: [\"0\", ", 1)
+		}
+		if coin(t, "byte-order-mark", 6) {
+			y = "\ufeff" + y
 		}
 		return y
 	}
